@@ -60,7 +60,8 @@ def cases(tier, seed):
             yield {"k": "long", "args": [a, b, None], "run_only": True}
     for a in [None, -3, 0, 2]:
         for b in [None, -2, 0, 5]:
-            for c in [0, -1, -2, 1.5, 0.5, -0.5]:
+            for c in [0, -1, -2, 1.5, 0.5, -0.5, "Frac:3/2", "Frac:-1/2", "Dec:2.5", "Dec:0.1",
+                      "inf", "-inf", "nan"]:
                 yield {"k": "badstep", "args": [a, b, c]}
     yield {"k": "reverse"}
     yield {"k": "chain"}
@@ -289,6 +290,11 @@ def run_case(r, obs):
                           "still selected" % (tuple(args), stopped_at))
     elif k == "badstep":
         a, b, c = r["args"]
+        if isinstance(c, str):
+            import decimal
+            import fractions
+            c = (fractions.Fraction(c[5:]) if c.startswith("Frac:") else
+                 decimal.Decimal(c[4:]) if c.startswith("Dec:") else float(c))
         obs.nontrivial = True
         try:
             lena.flow.Slice(a, b, c)
@@ -522,3 +528,5 @@ RULE += (' Chain is also given every kind of iterable itertools.chain accepts (d
          '__getitem__ only such as ctypes arrays).')
 RULE += (' Added: Chain results abandoned half-way (closed / dropped): the inputs can be read on as '
          'with itertools.chain; Slice.fill_into into an element whose fill raises StopIteration.')
+RULE += (' Added: invalid steps that are Fractions, Decimals, infinities and nan, with negative '
+         'and non-negative indices.')
